@@ -132,4 +132,45 @@ def run (S vols : Nat) (st : St) : List Op → St
   | [] => st
   | op :: ops => run S vols (step S vols st op).1 ops
 
+/-! ### `get_shape` without ordering keys: guessing the key of the fourth dimension -/
+
+/-- a file of a stack built without ordering keys: its sorting tuple `(None, None, position)` and,
+    for every key of `sort_guesses` (in that order), the value the file carries (`none` = absent) -/
+structure GF where
+  f : F
+  cands : List (Option Int)
+deriving DecidableEq, Repr
+
+/-- number of distinct values -/
+def nDistinct (l : List Int) : Nat := (distinctSorted l).length
+
+/-- values of candidate `k` over all files, `none` if some file lacks it -/
+def candVals (files : List GF) (k : Nat) : Option (List Int) :=
+  files.mapM fun g => (g.cands[k]?).join
+
+/-- the keys `get_shape` considers (dcmstack.py 676–685): present in every file, and with as many
+    distinct values as there are volumes or files -/
+def possibleOrders (files : List GF) (nCands vols : Nat) : List Nat :=
+  (List.range nCands).filter fun k =>
+    match candVals files k with
+    | none => false
+    | some vs => nDistinct vs == vols || nDistinct vs == files.length
+
+/-- the sorting tuples with the time ordinate taken from candidate `k` -/
+def retime (files : List GF) (k : Nat) : List F :=
+  files.map fun g => { g.f with t := ((g.cands[k]?).join).getD 0 }
+
+/-- `get_shape` without ordering keys: the count checks, then (more than one volume) the first
+    candidate key under which the files pass `_chk_order`.  Returns the shape and the chosen key. -/
+def guessShape (spacingOk : List Int → Bool) (nCands : Nat) (files : List GF) :
+    ShapeOut × Option Nat :=
+  let fs := files.map (·.f)
+  let vols := fs.length / dimS fs
+  if fs.length = 0 ∨ dimS fs = 0 ∨ vols ≤ 1 then (getShape spacingOk fs, none)
+  else
+    match (possibleOrders files nCands vols).find? fun k => acceptB spacingOk (retime files k) with
+    | some k => (.ok (dimS fs) (dimT fs) (dimV fs), some k)
+    | none => (.invalid, none)
+
+
 end Stk
